@@ -58,6 +58,7 @@ def kwargs_from_call(
     kwdefaults: Dict[str, Any],
     args: Tuple[Any, ...],
     kwargs: Dict[str, Any],
+    positional_only: Optional[Set[str]] = None,
 ) -> MutableMapping[str, Any]:
     """
     Inspect the input values received at the wrapper for the actual function call.
@@ -96,6 +97,10 @@ def kwargs_from_call(
             pass  # pragma: no cover
 
     for key, val in kwargs.items():
+        if positional_only is not None and key in positional_only:
+            # This keyword argument does not refer to the parameter, see ``_KWARGS`` for its value.
+            continue
+
         resolved_kwargs[key] = val
 
     return resolved_kwargs
@@ -697,6 +702,13 @@ def decorate_with_checker(func: CallableT) -> CallableT:
         not in (inspect.Parameter.KEYWORD_ONLY, inspect.Parameter.VAR_KEYWORD)
     ]
 
+    # Keyword arguments named as a positional-only parameter end up in the variable keyword arguments.
+    positional_only = {
+        param.name
+        for param in sign.parameters.values()
+        if param.kind == inspect.Parameter.POSITIONAL_ONLY
+    }
+
     # Determine the default argument values
     kwdefaults = resolve_kwdefaults(sign=sign)
 
@@ -747,6 +759,7 @@ def decorate_with_checker(func: CallableT) -> CallableT:
                     kwdefaults=kwdefaults,
                     args=args,
                     kwargs=kwargs,
+                    positional_only=positional_only,
                 )
 
                 type_error = _assert_resolved_kwargs_valid(
@@ -820,6 +833,7 @@ def decorate_with_checker(func: CallableT) -> CallableT:
                     kwdefaults=kwdefaults,
                     args=args,
                     kwargs=kwargs,
+                    positional_only=positional_only,
                 )
 
                 type_error = _assert_resolved_kwargs_valid(
